@@ -2379,7 +2379,9 @@ static Node *new_cas(Node *addr, Node *old, Node *new, Token *tok) {
 // However, if a given expression is of form `A.x op= C`, the input is
 // converted to `tmp = &A, (*tmp).x = (*tmp).x op C` to handle assignments
 // to bitfields.
-static Node *to_assign(Node *binary) {
+// If `yield_old` is set, the value of the expression is the value the
+// object had before the operation (atomic objects only).
+static Node *to_assign2(Node *binary, bool yield_old) {
   add_type(binary->lhs);
   add_type(binary->rhs);
   Token *tok = binary->tok;
@@ -2463,7 +2465,8 @@ static Node *to_assign(Node *binary) {
     loop->cond = new_unary(ND_NOT, cas, tok);
 
     cur = cur->next = loop;
-    cur = cur->next = new_unary(ND_EXPR_STMT, new_var_node(new, tok), tok);
+    // After a successful compare-exchange `old` is the replaced value.
+    cur = cur->next = new_unary(ND_EXPR_STMT, new_var_node(yield_old ? old : new, tok), tok);
 
     Node *node = new_node(ND_STMT_EXPR, tok);
     node->body = head.next;
@@ -2486,6 +2489,10 @@ static Node *to_assign(Node *binary) {
                tok);
 
   return new_binary(ND_COMMA, expr1, expr2, tok);
+}
+
+static Node *to_assign(Node *binary) {
+  return to_assign2(binary, false);
 }
 
 // assign    = conditional (assign-op assign)?
@@ -3226,8 +3233,12 @@ static Node *new_inc_dec(Node *node, Token *tok, int addend) {
 
   // A _Bool saturates and floating-point addition rounds, so the old
   // value cannot be recovered from the new one. Convert `A++` to
-  // `tmp = &A, old = *tmp, *tmp += 1, old`.
-  if ((node->ty->kind == TY_BOOL || is_flonum(node->ty)) && !node->ty->is_atomic) {
+  // `tmp = &A, old = *tmp, *tmp += 1, old`; the compare-exchange loop
+  // of an atomic object yields the value it replaced.
+  if ((node->ty->kind == TY_BOOL || is_flonum(node->ty)) && node->ty->is_atomic)
+    return to_assign2(new_add(node, new_num(addend, tok), tok), true);
+
+  if (node->ty->kind == TY_BOOL || is_flonum(node->ty)) {
     Obj *tmp = new_lvar("", pointer_to(node->ty));
     Obj *old = new_lvar("", node->ty);
 
